@@ -703,7 +703,9 @@ func Run(r *fw.Run) {
 		}
 		firsts = append(firsts, "é", "\u212a", "%s", "%d", "//", "indirect", "i", "; ")
 		// near misses of the marker itself
-		for _, com := range []string{"// indirectly used", "// indirect;x y", "//indirect", "// indirect ; z", "// Indirect", "// indirect;", "// indirect;; w", "//  indirect;  spaced  out", "// not indirect", "// indirect\tx"} {
+		for _, com := range []string{"// indirectly used", "// indirect;x y", "//indirect", "// indirect ; z", "// Indirect", "// indirect;", "// indirect;; w", "//  indirect;  spaced  out", "// not indirect", "// indirect\tx",
+			// every kind of white space behind the marker (the documented rule splits on Unicode white space)
+			"// indirect;\tx y", "// indirect;\u00a0x", "// indirect;\u3000x y", "// indirect;\vx", "// indirect;\fx", "// indirect;\u0085x", "// indirect;\u2028x", "// indirect\u00a0", "// indirect\u00a0x", "//\tindirect;\tx", "//\u00a0indirect; x", "// indirect;\u200bx", "// indirect;\ufeffx"} {
 			sds = append(sds, "module example.com/m\n\ngo 1.21\n\nrequire a.com/x v1.0.0 "+com+"\n", "module example.com/m\n\ngo 1.21\n\nrequire (\n\ta.com/x v1.0.0 "+com+"\n\tb.com/y v1.0.0\n)\n")
 		}
 		for _, f := range firsts {
